@@ -40,7 +40,7 @@ def spec(tier):
         for pd in ((2, 10) if sh == 0x04 else (2,)):
             u = mkunit(units, SHAPE=sh, PD=pd)
             units[u]["havoc"] = ["s_init_from_uri_str"]
-            jobs.append(dict(unit=u, entry="h_uri_compose_parse", unwind=14 if pd == 2 else 22, timeout=600 if quick else 1500,
+            jobs.append(dict(unit=u, entry="h_uri_compose_parse", unwind=14 if pd == 2 else 22, timeout=600 if quick else 1500, backend="kissat" if pd == 10 else "minisat",
                              bounds="shape 0x%02x (bits: scheme,user,port,path,query,password,ipv6,empty-host), %d port digits; all characters symbolic" % (sh, pd),
                              what="parse(compose(components)) == components; views inside uri_str"))
             if not (sh & 2) and sh != 0x80 and pd == 2:  # the builder has no user-info option; nothing to build for the empty shape
